@@ -194,15 +194,18 @@ func c03Routing(c *Ctx, p *Prog, m *Model) {
 			v := resolveAlong(t.Instr.(*ssa.Return).Results[0], t.Path)
 			v = strip(v)
 			switch {
-			case func() bool { g, ok := globalLoad(v); return ok && g.Name() == "discardWriter" }():
+			case func() bool { g, ok := globalLoad(v); return ok && nm(g) == "discardWriter" }():
 				got = "discard"
-			case func() bool { ex, ok := v.(*ssa.Extract); return ok && ex.Index == 0 && isLeveledLookup(ex.Tuple) != nil }():
+			case func() bool {
+				ex, ok := v.(*ssa.Extract)
+				return ok && ex.Index == 0 && isLeveledLookup(ex.Tuple) != nil
+			}():
 				got = "leveled[lvl]"
 			case func() bool { lk, ok := v.(*ssa.Lookup); return ok && isLeveledLookup(lk) != nil }():
 				got = "leveled[lvl]"
 			default:
 				if b, _, f, ok := fieldLoad(v); ok && b == ssa.Value(recv) {
-					got = f.Name()
+					got = nm(f)
 				} else {
 					got = "?" + m.valDesc(v)
 				}
@@ -244,7 +247,7 @@ func c03Routing(c *Ctx, p *Prog, m *Model) {
 	// reader/writer agreement
 	for _, fn := range p.RepoFuncs() {
 		for _, gs := range globalStores(fn) {
-			if gs.G != errG || fn.Name() == "init" {
+			if gs.G != errG || nm(fn) == "init" {
 				continue
 			}
 			key := "errdev-writer:" + shortName(fn)
@@ -282,7 +285,7 @@ func c03Routing(c *Ctx, p *Prog, m *Model) {
 			a0 := call.Common().Args[0]
 			if b, ok := isFieldLoadOf(a0, "Entry", "writer"); ok && b == ssa.Value(receiver(fw)) {
 				own = call
-			} else if g, ok := globalLoad(a0); ok && g.Name() == "defaultWriter" {
+			} else if g, ok := globalLoad(a0); ok && nm(g) == "defaultWriter" {
 				def = call
 			}
 		}
@@ -365,7 +368,7 @@ func c03Routing(c *Ctx, p *Prog, m *Model) {
 	if nd := p.Func(p.Slog, "newDualWriter"); nd != nil {
 		ok := false
 		for _, cs := range callsIn(nd) {
-			if cal := calleeOf(cs); cal != nil && cal.Name() == "Reset" {
+			if cal := calleeOf(cs); cal != nil && nm(cal) == "Reset" {
 				ok = true
 			}
 		}
@@ -386,7 +389,7 @@ func wrappedGlobal(v ssa.Value) string {
 			for _, r2 := range *fa.Referrers() {
 				if st, ok := r2.(*ssa.Store); ok {
 					if g, ok := globalLoad(st.Val); ok {
-						return tn + "(" + g.Pkg.Pkg.Name() + "." + g.Name() + ")"
+						return tn + "(" + nm(g.Pkg.Pkg) + "." + nm(g) + ")"
 					}
 				}
 			}
@@ -567,12 +570,12 @@ func c03Frames(c *Ctx, p *Prog, m *Model) {
 		for _, b := range set.Blocks {
 			for _, in := range b.Instrs {
 				if st, ok := in.(*ssa.Store); ok {
-					if f, okf := st.Addr.(*ssa.FieldAddr); okf && isNilConst(st.Val) && structOf(f.X.Type()).Field(f.Field).Name() == "Normal" {
+					if f, okf := st.Addr.(*ssa.FieldAddr); okf && isNilConst(st.Val) && nm(structOf(f.X.Type()).Field(f.Field)) == "Normal" {
 						clr = st
 					}
 				}
 				if cs, ok := in.(ssa.CallInstruction); ok {
-					if cal := calleeOf(cs); cal != nil && cal.Name() == "Add" {
+					if cal := calleeOf(cs); cal != nil && nm(cal) == "Add" {
 						add = cs
 					}
 				}
@@ -583,7 +586,7 @@ func c03Frames(c *Ctx, p *Prog, m *Model) {
 	// no other function writes the three lists
 	for _, fn := range p.RepoFuncs() {
 		if fn.Signature.Recv() != nil && typeName(fn.Signature.Recv().Type()) == "dualWriter" {
-			if _, ok := dwOps[fn.Name()]; ok {
+			if _, ok := dwOps[nm(fn)]; ok {
 				continue
 			}
 		}
@@ -672,7 +675,7 @@ func c03Wrappers(c *Ctx, p *Prog, m *Model) {
 					// stored to s.writer?
 					for _, ref := range *cs.Value().Referrers() {
 						if st, ok := ref.(*ssa.Store); ok {
-							if fa, ok := st.Addr.(*ssa.FieldAddr); ok && fa.X == ssa.Value(recv) && structOf(fa.X.Type()).Field(fa.Field).Name() == "writer" {
+							if fa, ok := st.Addr.(*ssa.FieldAddr); ok && fa.X == ssa.Value(recv) && nm(structOf(fa.X.Type()).Field(fa.Field)) == "writer" {
 								if !called {
 									created = true
 								}
@@ -700,7 +703,7 @@ func c03Wrappers(c *Ctx, p *Prog, m *Model) {
 				}
 				for i, q := range fn.Params[1:] {
 					if i+1 >= len(args) || args[i+1] != ssa.Value(q) {
-						probs = append(probs, "parameter "+q.Name()+" is not handed to the delegate unchanged")
+						probs = append(probs, "parameter "+nm(q)+" is not handed to the delegate unchanged")
 					}
 				}
 			}
@@ -708,7 +711,7 @@ func c03Wrappers(c *Ctx, p *Prog, m *Model) {
 		// no other dualWriter method is called
 		for _, cs := range callsIn(fn) {
 			if cal := calleeOf(cs); cal != nil && cal.Signature.Recv() != nil && typeName(cal.Signature.Recv().Type()) == "dualWriter" && cal != del {
-				probs = append(probs, "also calls dualWriter."+cal.Name())
+				probs = append(probs, "also calls dualWriter."+nm(cal))
 			}
 		}
 		probs = dedupStr(probs)
@@ -743,7 +746,7 @@ func c03Wrappers(c *Ctx, p *Prog, m *Model) {
 								fv, isFV = u.X.(*ssa.FreeVar)
 							}
 						}
-						if !isFV || fv.Name() != fn.Params[i].Name() {
+						if !isFV || nm(fv) != nm(fn.Params[i]) {
 							good = false
 						}
 					}
@@ -947,7 +950,7 @@ func c03Notify(c *Ctx, p *Prog, m *Model) {
 			// receiver: assertion on the member or on member.(*logwr).Writer
 			if ex, ok := cs.Common().Value.(*ssa.Extract); ok {
 				if ta, ok := ex.Tuple.(*ssa.TypeAssert); ok {
-					if _, _, f, isF := fieldLoad(ta.X); isF && f.Name() == "Writer" {
+					if _, _, f, isF := fieldLoad(ta.X); isF && nm(f) == "Writer" {
 						wrapped = true
 					} else {
 						direct = true
